@@ -434,6 +434,64 @@ def r06_4b(prog, tab):
     return r
 
 
+def r06_5(prog, tab):
+    """XER has no way to omit a DEFAULT: an absent DEFAULT member and one stored explicitly with the default value must
+    print the same text, so the encoder prints the default for the absent one.  Sibling agreement between the XER
+    encoders of SEQUENCE and SET: on the edge where the member pointer is NULL, the loop may only go on to the next
+    member (skip) after the default_value_set slot was looked at -- a call through it, or a test of it on its NULL
+    edge."""
+    r = Rule("R06.5", "the XER encoders of SEQUENCE and SET print the DEFAULT value of an absent DEFAULT member (absent and explicit default give the same text)", floor=2)
+    for name in tab["xer_default_materialisers"]:
+        f = prog.func(name)
+        if f is None:
+            continue
+        loops = f.loops()
+        n = 0
+        for b in f.blocks.values():
+            t = b.term
+            if not t or "cond" not in t or len(b.succ) < 2:
+                continue
+            c = strip_casts(t["cond"]["tree"])
+            neg = False
+            while isinstance(c, list) and c and c[0] == "un" and c[1] == "!":
+                c = strip_casts(c[2])
+                neg = not neg
+            if not (is_var(c) and c[1].split("@")[0] == "memb_ptr"):
+                continue
+            null_succ = b.succ[0] if neg else b.succ[1]
+            hdrs = [h for h, body in loops if b.id in body]
+            if not hdrs or null_succ is None:
+                continue
+            n += 1
+            key = "absent-member@%d" % n
+            # from the NULL edge: can a loop header be reached without meeting the default_value_set slot?
+            seen, st, skipped = set(), [null_succ], None
+            while st and skipped is None:
+                bid = st.pop()
+                if bid in seen or bid is None:
+                    continue
+                seen.add(bid)
+                blk = f.blocks[bid]
+                if bid in hdrs:
+                    skipped = bid
+                    break
+                if any(e["k"] == "call" and e.get("slot") == "default_value_set" for e in blk.ev):
+                    continue
+                if any(e["k"] == "return" for e in blk.ev):
+                    continue
+                if blk.term and "cond" in blk.term and any(nd[0] == "member" and nd[2] == "default_value_set" for nd in walk(blk.term["cond"].get("full_tree") or blk.term["cond"]["tree"])):
+                    # the slot is looked at: its NULL edge may skip (no DEFAULT), its non-NULL edge is followed
+                    st.append(blk.succ[0])
+                    continue
+                st.extend(blk.succs())
+            if skipped is None:
+                r.ok(f, key, "an absent member is skipped only where it has no default_value_set", t.get("line"))
+            else:
+                r.bad(f, key, "an absent member is skipped without looking at default_value_set: an absent DEFAULT prints nothing while the same "
+                              "value stored explicitly prints the element; the sibling encoder materialises the default", t.get("line"))
+    return r
+
+
 def _reaches(f, cb, b):
     return b.id in f.reachable_from([cb.id])
 
@@ -441,7 +499,7 @@ def _reaches(f, cb, b):
 def run(ctx):
     prog = ctx.prog("S")
     tab = load_tables("c06")
-    return [r06_1(prog, tab), r06_1b(prog, tab), r06_1c(prog, tab), r06_2(prog, tab), r06_3(prog, tab), r06_4(prog, tab), r06_4b(prog, tab)]
+    return [r06_1(prog, tab), r06_1b(prog, tab), r06_1c(prog, tab), r06_2(prog, tab), r06_3(prog, tab), r06_4(prog, tab), r06_4b(prog, tab), r06_5(prog, tab)]
 
 
 def thorough(ctx):
